@@ -73,7 +73,9 @@ pub fn write_replay(prop: &str, seed: u64, f: &Found) -> PathBuf {
     let dir = verif_dir().join("replays");
     let _ = std::fs::create_dir_all(&dir);
     let mut spec = f.spec.clone();
-    spec.replay = Some(f.decisions.clone());
+    if spec.switches.is_none() {
+        spec.replay = Some(f.decisions.clone());
+    }
     let rf = ReplayFile {
         property: prop.to_string(),
         rule: f.violation.rule.to_string(),
